@@ -7,5 +7,6 @@ CONSTANTS
   MaxInner = 1
   Boxes <- BoxesQ
   KConv = 1000
+  KConvX = 10
 INVARIANTS TypeOK Descent ReportConsistent Budget FeasibleAlways Converged Bracketed Protocol HeldDescends
 CHECK_DEADLOCK FALSE
